@@ -38,7 +38,7 @@ func borrowed(fn *ssa.Function, or BOrigin) (bool, string) {
 			return true, "the storage of a constant (Const.Bytes())"
 		case FuncNameIs(f, "("+pkgElf+".Block).Bytes"):
 			return true, "the bytes of an ELF block (Block.Bytes())"
-		case f.Name() == "Bytes" && f.Signature.Recv() != nil && PkgPathOf(f) != "":
+		case NameOf(f) == "Bytes" && f.Signature.Recv() != nil && PkgPathOf(f) != "":
 			return true, "the byte slice returned by " + ShortName(f)
 		}
 	case OField:
@@ -194,7 +194,7 @@ func checkC27(c *Ctx) {
 				}
 			case OParam:
 				pf := or.Param.Parent()
-				if pf == nil || token.IsExported(Origin(pf).Name()) || pf.Signature.Recv() != nil {
+				if pf == nil || token.IsExported(NameOf(Origin(pf))) || pf.Signature.Recv() != nil {
 					return "the caller's slice (parameter " + or.Param.Name() + ") becomes the constant's storage without a copy: the constant changes when the caller later modifies its bytes"
 				}
 				idx := -1
@@ -304,7 +304,7 @@ func checkConstRange(c *Ctx) {
 		if fn.Blocks == nil {
 			continue
 		}
-		name := Origin(fn).Name()
+		name := NameOf(Origin(fn))
 		if (name != "NewConstUint" && name != "NewConstInt") || (fn.Synthetic != "" && !strings.HasPrefix(fn.Synthetic, "instance")) {
 			continue
 		}
@@ -552,11 +552,11 @@ func checkC15(c *Ctx) {
 				}
 				continue
 			}
-			if f.String() == "sort.Slice" {
+			if sortsAscending(cs.Common(), func(v ssa.Value) bool { n, _, ok := FieldNameOfLoad(v); return ok && n == "begin" }) {
 				sorted = true
 				sortCall, _ = cs.Instr.(*ssa.Call)
 			}
-			if f.Name() == "dedupBlocks" {
+			if NameOf(f) == "dedupBlocks" {
 				dedupCall, _ = cs.Instr.(*ssa.Call)
 			}
 		}
@@ -606,7 +606,7 @@ func checkC15(c *Ctx) {
 		// all bytes of the constant at width w are stored: loop until len(bs)==0 advancing by n
 		widthOK := false
 		for _, cs := range Calls(st) {
-			if f := Callee(cs.Common()); f != nil && f.Name() == "WithWidth" && len(cs.Common().Args) == 2 && cs.Common().Args[1] == ssa.Value(st.Params[3]) {
+			if f := Callee(cs.Common()); f != nil && NameOf(f) == "WithWidth" && len(cs.Common().Args) == 2 && cs.Common().Args[1] == ssa.Value(st.Params[3]) {
 				widthOK = true
 			}
 		}
@@ -837,7 +837,7 @@ func checkC16(c *Ctx) {
 			continue
 		}
 		intervals, ok := Unwrap(site.UpRoot(loop.Over)).(*ssa.Call)
-		if !ok || intervals.Call.StaticCallee() == nil || Origin(intervals.Call.StaticCallee()).Name() != "Intervals" {
+		if !ok || intervals.Call.StaticCallee() == nil || NameOf(Origin(intervals.Call.StaticCallee())) != "Intervals" {
 			c.Fail("C16.set", k, c.Prog.Pos(call.Pos()), "the ranges read are not the Intervals() of a set")
 			continue
 		}
@@ -895,7 +895,7 @@ func checkC16(c *Ctx) {
 					if bi, isBi := call.Call.Value.(*ssa.Builtin); isBi && bi.Name() == "len" {
 						return 1, true
 					}
-					if f := call.Call.StaticCallee(); f != nil && Origin(f).Name() == "Len" && PkgPathOf(f) == IntervalPkg {
+					if f := call.Call.StaticCallee(); f != nil && NameOf(Origin(f)) == "Len" && PkgPathOf(f) == IntervalPkg {
 						return 1, true
 					}
 				}
@@ -904,7 +904,7 @@ func checkC16(c *Ctx) {
 			Bool: func(v ssa.Value) (bool, bool) {
 				switch x := v.(type) {
 				case *ssa.Call:
-					if f := x.Call.StaticCallee(); f != nil && Origin(f).Name() == "Equal" && PkgPathOf(f) == IntervalPkg {
+					if f := x.Call.StaticCallee(); f != nil && NameOf(Origin(f)) == "Equal" && PkgPathOf(f) == IntervalPkg {
 						return false, true // part of the range is in the overlay
 					}
 				case *ssa.Extract:
@@ -966,7 +966,7 @@ func checkC16(c *Ctx) {
 					}
 				}
 			case "base":
-				if call, isCall := g.Cond.(*ssa.Call); isCall && g.Outcome && call.Call.StaticCallee() != nil && Origin(call.Call.StaticCallee()).Name() == "Equal" {
+				if call, isCall := g.Cond.(*ssa.Call); isCall && g.Outcome && call.Call.StaticCallee() != nil && NameOf(Origin(call.Call.StaticCallee())) == "Equal" {
 					x, y := atom(Unwrap(call.Call.Args[0])), atom(Unwrap(call.Call.Args[1]))
 					if (x == "whole" && y == "overlay.Missing") || (y == "whole" && x == "overlay.Missing") {
 						good = true
@@ -980,18 +980,8 @@ func checkC16(c *Ctx) {
 	sortOK := false
 	for _, st := range DeepCalls(ld, enterLd) {
 		cs := st.Call()
-		if f := Callee(cs.Common()); f != nil && f.String() == "sort.Slice" {
-			if mc, ok := Unwrap(cs.Common().Args[1]).(*ssa.MakeClosure); ok {
-				if cmp, ok := mc.Fn.(*ssa.Function); ok {
-					for _, b := range cmp.Blocks {
-						if ret, isRet := b.Instrs[len(b.Instrs)-1].(*ssa.Return); isRet {
-							if bo, isBin := ret.Results[0].(*ssa.BinOp); isBin && bo.Op == token.LSS && matches(bo.X, Method("Begin", Any())) && matches(bo.Y, Method("Begin", Any())) {
-								sortOK = true
-							}
-						}
-					}
-				}
-			}
+		if sortsAscending(cs.Common(), func(v ssa.Value) bool { return matches(v, Method("Begin", Any())) }) {
+			sortOK = true
 		}
 	}
 	c.Oblige("C16.load", key+"/pieces-sorted-by-address", c.Prog.FuncPos(ld), sortOK, "the pieces are not sorted by Begin() before being combined")
@@ -1086,7 +1076,7 @@ func checkC14(c *Ctx) {
 		n := 0
 		for _, cs := range Calls(ms) {
 			f := Callee(cs.Common())
-			if f == nil || PkgPathOf(f) != IntervalPkg || Origin(f).Name() != "New" {
+			if f == nil || PkgPathOf(f) != IntervalPkg || NameOf(Origin(f)) != "New" {
 				continue
 			}
 			n++
@@ -1133,7 +1123,7 @@ func checkC14(c *Ctx) {
 				continue
 			}
 			for _, g := range GuardsOf(b) {
-				if call, isCall := g.Cond.(*ssa.Call); isCall && g.Outcome && call.Call.StaticCallee() != nil && call.Call.StaticCallee().Name() == "wholeInterval" {
+				if call, isCall := g.Cond.(*ssa.Call); isCall && g.Outcome && call.Call.StaticCallee() != nil && NameOf(call.Call.StaticCallee()) == "wholeInterval" {
 					a := call.Call.Args
 					if a[0] == ssa.Value(ld.Params[1]) && matches(a[1], Bin(token.ADD, ParamN(1), Conv(ParamN(2)))) {
 						ok = true
@@ -1297,4 +1287,50 @@ func fieldOfValue(v ssa.Value) string {
 		}
 	}
 	return ""
+}
+
+// sortsAscending: the call is sort.Slice / sort.SliceStable with a less
+// function - a closure, a function or a method value - that returns
+// key(x[i]) < key(x[j]) (or the mirrored key(x[j]) > key(x[i])) for its two
+// index parameters i and j.
+func sortsAscending(cc *ssa.CallCommon, isKey func(ssa.Value) bool) bool {
+	f := Callee(cc)
+	if f == nil || (f.String() != "sort.Slice" && f.String() != "sort.SliceStable") || len(cc.Args) != 2 {
+		return false
+	}
+	cmp, bound := ResolveFunc(cc.Args[1])
+	if cmp == nil || cmp.Blocks == nil {
+		return false
+	}
+	ps := cmp.Params
+	if bound && len(ps) == 3 {
+		ps = ps[1:]
+	}
+	if len(ps) != 2 {
+		return false
+	}
+	uses := func(v ssa.Value, p *ssa.Parameter) bool {
+		return DependsOn(v, func(x ssa.Value) bool { return x == ssa.Value(p) })
+	}
+	n := 0
+	for _, b := range cmp.Blocks {
+		ret, isRet := b.Instrs[len(b.Instrs)-1].(*ssa.Return)
+		if !isRet {
+			continue
+		}
+		n++
+		bo, isBin := ret.Results[0].(*ssa.BinOp)
+		if !isBin || !isKey(bo.X) || !isKey(bo.Y) {
+			return false
+		}
+		xi, xj := uses(bo.X, ps[0]), uses(bo.X, ps[1])
+		yi, yj := uses(bo.Y, ps[0]), uses(bo.Y, ps[1])
+		switch {
+		case bo.Op == token.LSS && xi && !xj && yj && !yi:
+		case bo.Op == token.GTR && xj && !xi && yi && !yj:
+		default:
+			return false
+		}
+	}
+	return n == 1
 }
